@@ -251,6 +251,10 @@ def families():
         Family('dense_neg_nest', [NEG_OPS, NEG_OPS, NEG_ATOMS, NEG_ATOMS, NEG_ATOMS, [0, 1, 2, 3]], _neg_nest),
         Family('dense_quant_conj3', [['forall', 'exists'], [XS, AYS, ('range', L(0), L(1), False, False)], VARI3[:3], VARI3, VARI3, [0, 1, 2, 3]], _conj3),
         Family('cmp_pair_not', [['and', 'or'], CMP_ALL, CMP_ALL], lambda op, a, b: binop(op, a, ('un', 'not', b))),
+        Family('agg_conv_lits', [['str', 'int', 'float', 'bool', 'abs', 'len'],
+                                 [L(0), L(1), L(2), ('un', '-', L(1)), F('0.0'), F('1.0'), F('0.5'), F('2.0'), TRUE, FALSE,
+                                  ('lit', 'str', '"1"'), ('lit', 'str', '"a"'), ('lit', 'str', '""'), ('lit', 'str', '"True"')]],
+               lambda f, v: ('call', f, v)),
         Family('agg_range', [AGG_FUNCS, RANGE_LO, RANGE_HI, EXCL], lambda f, lo, hi, ex: ('call', f, ('range', lo, hi, ex[0], ex[1]))),
         Family('agg_range_var', [AGG_FUNCS, [X, binop('+', X, L(1))], RANGE_HI, EXCL], lambda f, lo, hi, ex: ('call', f, ('range', lo, hi, ex[0], ex[1]))),
         Family('agg_set', [AGG_FUNCS + ['gcd'], LIT_SETS], lambda f, st: ('call', f, st)),
